@@ -10,7 +10,7 @@ import json
 
 import z3
 
-from ..core import Ctx, SInt, explore
+from ..core import Ctx, Inconclusive, SInt, explore
 from ..fileshim import stream_elem, stream_unpacked
 from ..stack import build_filreader, make_filreader
 
@@ -133,17 +133,26 @@ def configs(tier):
 
 
 def work(P, item):
-    nbits, nchans, nfiles, none, nblocks, budget = item
+    nbits, nchans, nfiles, none, nblocks, budget, deadline = item
     st = build_filreader()
-    res, stt = explore(harness(st, nbits, nchans, nfiles, none), bound=nblocks)
-    P.stats.add(stt)
-    P.reached += check_paths(P, res, nbits, nchans, f"plan[nbits={nbits},nchans={nchans},files={nfiles},nsamps={'None' if none else 'sym'}]", [budget])
+    label = f"plan[nbits={nbits},nchans={nchans},files={nfiles},nsamps={'None' if none else 'sym'}]"
+    bud = [budget]
+
+    def on_path(ctx, rec):
+        P.reached += check_paths(P, [(ctx, rec)], nbits, nchans, label, bud)
+        return "stop" if len(P.cands) >= 2 else None
+    try:
+        explore(harness(st, nbits, nchans, nfiles, none), bound=nblocks, on_path=on_path, deadline_s=deadline, stats=P.stats)
+    except Inconclusive as e:
+        if not P.cands:
+            raise
+        P.extra["note"] = f"exploration stopped early ({e}) after candidate violations were found"
 
 
 def run(R):
     build_filreader(R)
     quick = R.tier == "quick"
-    nblocks = 3 if quick else 5
+    nblocks = 3 if quick else 4
     R.bounds.update(dict(blocks=f"<= {nblocks} blocks per plan and initial quotient nsamps//(gulp-skipback) <= {nblocks} (other plans are cut and counted)",
                          files="1..3 files, per-file sample counts unbounded (>=0, total>=1)",
                          ints="N, gulp, start, nsamps, skipback unbounded integers; nsamps given or None",
@@ -159,7 +168,7 @@ def run(R):
             for none in (False, True):
                 if quick and none and nfiles > 1:
                     continue
-                items.append((nbits, nchans, nfiles, none, nblocks if nfiles < 3 or not quick else 2, 3 if quick else 40))
+                items.append((nbits, nchans, nfiles, none, nblocks if nfiles < 3 or not quick else 2, 3 if quick else 40, 150 if quick else 1500))
     parts = R.pmap(work, items)
     R.vacuity_witness("c01-plan", sum(p.reached for p in parts) > 0)
     # reachability twin: with the final assertion replaced by False some path must be violated
